@@ -573,6 +573,18 @@ pub fn jobs(prop: &str, tier: &str) -> Vec<Job> {
             ));
         }
         "C12" => {
+            {
+                // regions returned by merge_regions over coded columns / slices, from up to three sources of different
+                // shapes: covered rows must be accepted and numbered 0, 1, 2, ...
+                let mut c = LifeCfg::new("C12");
+                c.script = 8;
+                c.clear = true;
+                c.merge = true;
+                c.coded_merges = true;
+                c.o_dense = true;
+                c.n_forms = 2;
+                life(&mut out, c, if thorough { 4 } else { 3 }, &[], &|i| i.coded && i.dense, &|_, _| {});
+            }
             let mut c = LifeCfg::new("C12");
             c.clear = true;
             c.merge = true;
@@ -588,6 +600,14 @@ pub fn jobs(prop: &str, tier: &str) -> Vec<Job> {
             c.n_forms = 1;
             c.clear = true;
             life(&mut out, c, if thorough { 4 } else { 3 }, &[], &|i| i.positional, &|_, _| {});
+            // every input form (read items of other regions, borrowed items, iterators): what a form stores decides
+            // what the accessors of the neighbouring items can reach
+            let mut c = LifeCfg::new("C13");
+            c.o_positions = true;
+            c.script = 7;
+            c.n_forms = usize::MAX;
+            c.n_values = 3;
+            life(&mut out, c, if thorough { 4 } else { 3 }, &[], &|i| i.positional && !i.zst, &|_, _| {});
             // FlatStack::get(i) for i >= len must panic, for every index container
             stacks(&mut out, StackOracle::Sequence, if thorough { 4 } else { 3 }, &[], 3);
         }
@@ -610,6 +630,8 @@ pub fn jobs(prop: &str, tier: &str) -> Vec<Job> {
             c.n_values = 5;
             c.n_forms = 1;
             life(&mut out, c, if thorough { 5 } else { 3 }, &[], &|i| i.ordered, &|_, _| {});
+            // long slices differing in exactly one position, every position, lengths around 256 / 512 / 1024
+            out.push(job(|| Box::new(crate::m_cmp::SliceCmpMachine::new()), Mode::Bfs(BfsCfg::new(1)), false));
             use crate::m_huff::*;
             // fib12 / fib18: codes longer than one / two bytes for the compared symbols
             let mut profiles = vec![fib_profile(3), fib_profile(6), uniform_profile(3, 1), fib_profile(12)];
